@@ -95,7 +95,9 @@ POOL = [
     # account-related functions and tables (per-connection derived data: open/close index, account types)
     ('SELECT account, open_date(account) AS o, close_date(account) AS c WHERE number > {0}', ['dec'], ('acct',)),
     ('SELECT account, possign(number, account) AS p, verif_yield(number, 50) AS n', [], ('acct',)),
-    ('SELECT account, account_sortkey(account) AS k, has_account(account) AS h WHERE verif_yield(number, 51) != 0', [], ('acct',)),
+    # (has_account() is left out on purpose: it runs any() over a *set* of account names, so the number of Python
+    # lines it executes depends on the interpreter's hash seed - results do not, but line-level step counts would)
+    ('SELECT account, account_sortkey(account) AS k, open_date(account) AS o WHERE verif_yield(number, 51) != 0', [], ('acct',)),
     ('SELECT account, verif_yield(open.date, 52) AS d FROM #accounts', [], ('acct',)),
     ('SELECT account, sum(position) AS s FROM OPEN ON 2020-01-15 CLOSE ON 2020-03-01 GROUP BY account', [], ('from', 'agg')),
     ('SELECT account, sum(position) AS s FROM OPEN ON 2020-02-01 GROUP BY account', [], ('from', 'agg')),
